@@ -16,7 +16,7 @@ LEVEL_TEXT = ("Bounded verification by symbolic execution of the real registry c
               "yields each key once, len equals the number of keys, every key looks up to an item with that id holding a "
               "CircularRecord with that id and a resistance from the table, absent keys raise KeyError, and the union is "
               "first-wins.  Bounded claim.")
-LEVEL_NOTE = ("Bounds: archives of <=3 members, directories of <=4 entries, combinations of <=3 registries (overlapping and "
+LEVEL_NOTE = ("Bounds: archives of <=3 members, directories of <=3 entries, combinations of <=3 registries (overlapping and "
               "repeated). tar/gzip/GenBank parsing and the fs library's glob matching are stubbed (environment); the data invariant "
               "'member name = record id, ids distinct' is assumed symbolically and checked concretely on the bundled archives when "
               "they are present in the tree. The five kit registries' _load_entity tables are exercised by that concrete side "
@@ -36,7 +36,7 @@ IDCODES = [code_of(c) for c in "abc"]
 
 
 def bounds(tier):
-    return dict(archive_members_max=3, directory_entries_max=4, combined_members_max=3)
+    return dict(archive_members_max=3, directory_entries_max=3, combined_members_max=3)
 
 
 class World(object):
@@ -462,7 +462,7 @@ def obligations(tier, seed):
     for c in combos:
         obs.append(Ob("combined registries sizes=%s order=%s" % (c["sizes"], c["order"]), ob_combined, c, samples=6,
                       cost=40 ** sum(c["sizes"])))
-    for e in ([1, 2, 3] if tier == "quick" else [1, 2, 3, 4]):
+    for e in [1, 2, 3]:
         obs.append(Ob("directory with %d entries" % e, ob_directory, dict(entries=e), samples=8, cost=70 ** e))
     obs.append(Ob("bundled archives (concrete side condition)", ob_bundled, {}, samples=1, cost=5))
     return obs
